@@ -78,6 +78,13 @@ Proof.
   - exists s', outs. auto.
 Qed.
 
+(* the accepted spellings of load_dvt's path, and the *_el models rc(schema='asjp') loads *)
+Definition alias_seq : list step :=
+  [LoadDvt ""; LoadDvt "el"; LoadDvt "evolaemp"; NewModel "asjp_el"; NewModel "sca_el"; NewModel "dolgo_el";
+   NewModel "art_el"; NewModel "jaeger_el"; NewModel "color_el"].
+Lemma alias_wf : wf_seq model_dirs alias_seq = true.
+Proof. vm_compute. reflexivity. Qed.
+
 Lemma scorer_bin_guard_needed :
   exists (D : dirs) (s : cstate xcontent),
     sane xdec xconv xdvt s /\
@@ -127,7 +134,7 @@ Proof.
 Qed.
 
 Lemma vals_refb_spec (o : start_obs) :
-  vals_refb o = true <-> so_vals o = map (ref_val xconv xscorer xdvt model_dirs) import_seq.
+  vals_refb o = true <-> so_vals o = map (ref_val xconv xscorer xdvt model_dirs) (so_seq o).
 Proof. unfold vals_refb. apply (list_eqb_spec sval_eqb sval_eqb_spec). Qed.
 
 (* for the evaluated codec "valid" and "holds the complete pickle of the right object" coincide *)
@@ -140,8 +147,8 @@ Proof.
   - injection E as ->. reflexivity.
 Qed.
 
-Lemma cleanb_spec (dir : bool) (fl : list (string * xcontent)) :
-  cleanb dir fl = true <-> clean xdec xconv xdvt import_seq (state_of dir fl).
+Lemma cleanb_spec (seq : list step) (dir : bool) (fl : list (string * xcontent)) :
+  cleanb seq dir fl = true <-> clean xdec xconv xdvt seq (state_of dir fl).
 Proof.
   unfold cleanb, clean. rewrite forallb_forall, Forall_forall.
   split; intros H st I; specialize (H st I); unfold step_valid in *; now apply xvalid_spec.
